@@ -492,6 +492,82 @@ def _direct_resume_chain(c, o=None):
             return ("chain-resume", "%s chain: segment %d replays segment 0 bit for bit" % (c["sampler"].upper(), i))
     return None
 
+
+# --------------------------------------------------------------------------------------------------
+# non-unit mass matrices: momentum variance vs. the inverse mass used by the dynamics
+# --------------------------------------------------------------------------------------------------
+
+def mass_cases(ctx):
+    out = []
+    forms = [("scalar", 0.25, [0.0, 0.0]), ("scalar", 4.0, [0.0, 0.0, 0.0]), ("scalar", 3.0, [0.0]),
+             ("array", [0.25, 4.0, 1.0], None), ("array", [16.0, 0.0625], None), ("array", [2.0, 0.5, 3.0], None),
+             ("vector", {"a": [4.0, 0.25], "b": [1.0, 16.0]}, None), ("vector", {"a": [2.0, 2.0], "b": [2.0, 2.0]}, None)]
+    for i, (form, im, proto) in enumerate(forms):
+        for smp in ("hmc", "nuts"):
+            out.append({"kind": "mass", "form": form, "im": im, "proto": proto, "sampler": smp, "seed": 61 + i + 10 * ctx.seed})
+    return out
+
+
+def _mass_sampler(c, num_steps=1, step=0.25):
+    import jax
+    import jax.numpy as jnp
+    import nifty.re as jft
+    if c["form"] == "scalar":
+        proto, im = jnp.asarray(c["proto"], dtype=jnp.float64), float(c["im"])
+    elif c["form"] == "array":
+        im = jnp.asarray(c["im"], dtype=jnp.float64)
+        proto = jnp.zeros_like(im)
+    else:
+        im = jft.Vector({k: jnp.asarray(v, dtype=jnp.float64) for k, v in c["im"].items()})
+        proto = jft.Vector(jax.tree_util.tree_map(jnp.zeros_like, im.tree))
+    V = lambda q: 0.0 * jft.vdot(q, q)
+    if c["sampler"] == "hmc":
+        s = jft.HMCChain(potential_energy=V, inverse_mass_matrix=im, position_proto=proto, num_steps=num_steps, step_size=step)
+    else:
+        s = jft.NUTSChain(potential_energy=V, inverse_mass_matrix=im, position_proto=proto, step_size=step, max_tree_depth=1)
+    return s, proto
+
+
+def observe_mass(c):
+    import jax
+    s, proto = _mass_sampler(c)
+    sq = np.concatenate([np.asarray(x, dtype=float).ravel() for x in jax.tree_util.tree_leaves(s.mass_matrix_sqrt)])
+    im = np.concatenate([np.asarray(x, dtype=float).ravel() for x in jax.tree_util.tree_leaves(s.inverse_mass_matrix)])
+    return {"sqrt": sq, "im": im}
+
+
+def _direct_mass(c):
+    import jax
+    import jax.numpy as jnp
+    o = observe_mass(c)
+    if o["sqrt"].shape != o["im"].shape:
+        return ("mass-inconsistent", "mass_matrix_sqrt and inverse_mass_matrix have different shapes")
+    bad = np.abs(o["sqrt"] ** 2 * o["im"] - 1.0) > 1e-12
+    if bad.any():
+        i = int(np.argmax(bad))
+        return ("mass-inconsistent", "%s (%s inverse mass %r): momentum is refreshed with standard deviation %.6g where the inverse mass used by leapfrog / kinetic energy is %.6g: variance * inverse mass = %.6g, not 1" % (
+            c["sampler"].upper(), c["form"], c["im"], o["sqrt"][i], o["im"][i], o["sqrt"][i] ** 2 * o["im"][i]))
+    if c["sampler"] == "hmc":
+        # end to end: flat potential, one leapfrog step, always accepted: first sample = step * M^-1 p,
+        # and p must be M^(1/2) z with z the normal draw of the refresh key
+        s, proto = _mass_sampler(c)
+        key0 = jax.random.PRNGKey(int(c["seed"]))
+        with Eager(False):
+            chain, _ = s.generate_n_samples(key0, proto, num_samples=1)
+        kmr = jax.random.split(key0, 3)[2]
+        leaves = jax.tree_util.tree_leaves(chain.samples)
+        ims = jax.tree_util.tree_leaves(s.inverse_mass_matrix)
+        sub = jax.random.split(kmr, len(leaves))
+        for j, (x, im) in enumerate(zip(leaves, ims)):
+            x0, im = np.asarray(x)[0], np.asarray(im, dtype=float)
+            z = np.asarray(jax.random.normal(sub[j], jnp.shape(x0), dtype=jnp.float64))
+            p = x0 / (0.25 * im)
+            want = im ** -0.5 * z
+            if np.max(np.abs(p - want)) > 1e-10 * max(1.0, np.max(np.abs(want))):
+                return ("mass-inconsistent", "HMC chain (%s inverse mass %r) on a flat potential: the momentum behind the first move is %r, N(0, M) with the refresh key prescribes %r" % (
+                    c["form"], c["im"], np.round(p, 6).tolist(), np.round(want, 6).tolist()))
+    return None
+
 # --------------------------------------------------------------------------------------------------
 # case generation
 # --------------------------------------------------------------------------------------------------
@@ -716,6 +792,22 @@ class C32(C.Check):
                 meta.append(("momentum", c))
                 dist["momentum"] = dist.get("momentum", 0) + 1
                 nontrivial.add(("momentum", t["name"], o["n"]))
+        # non-unit mass matrices
+        for c in mass_cases(ctx):
+            try:
+                o = observe_mass(c)
+            except Exception as e:
+                res.add_broken("correspondence", "implementation raised", {"case": _js(c), "error": repr(e)[:300]})
+                continue
+            n_e = min(len(o["sqrt"]), len(o["im"]))
+            for j in range(n_e):
+                checks.append("mass_case %s %s %s" % (C.cq(Fraction(1, 10 ** 12)), C.cq(float(o["sqrt"][j])), C.cq(float(o["im"][j]))))
+                meta.append(("mass", c))
+                dist["mass"] = dist.get("mass", 0) + 1
+            if len(o["sqrt"]) != len(o["im"]):
+                checks.append("false")
+                meta.append(("mass", c))
+            nontrivial.add(("mass", c["form"], c["sampler"], str(c["im"])))
         # chains continued from the returned core state
         self.resume_obs = []
         for c in resume_chain_cases(ctx):
@@ -762,7 +854,7 @@ class C32(C.Check):
             "rule": "generated potentials V = b.q + q.A.q/2 + sum c q^4/4 (dyadic parameters, d<=3, optional NaN/+inf barrier), dyadic states, step sizes, diagonal masses; "
                     "lf: n real leapfrog steps vs translated step in Q (rel. tol 1e-9); hmc: generate_hmc_acc_rej (eager, 1 in 10 compiled) vs model incl. accept decision replayed from the uniform draw, divergence flag, both returned points; "
                     "nuts: per iterative_build_tree call the exact sequence of checkpoint writes/reads, U-turn decisions on the recorded float arguments, keep/merge probabilities vs progressive-sampling model; bits: popcount / count_trailing_ones exact. "
-                    "momentum: sample_momentum_from_diagonal on pytrees with several equal-shaped leaves (dict, nested, tuple, Vector): the sub-key index that reproduces each leaf bit for bit against leaf_keys; resume: k segments of n samples continued from the returned core state against one run of k*n samples (float64 bit patterns, HMC and NUTS) and the number of key advances of every returned key. distinct = classes (kind, dimension/steps/quartic | accept, diverging, barrier | depth, turning, bias | tree, leaves | sampler, n, k)",
+                    "momentum: sample_momentum_from_diagonal on pytrees with several equal-shaped leaves (dict, nested, tuple, Vector): the sub-key index that reproduces each leaf bit for bit against leaf_keys; resume: k segments of n samples continued from the returned core state against one run of k*n samples (float64 bit patterns, HMC and NUTS) and the number of key advances of every returned key. mass: mass_matrix_sqrt of HMCChain / NUTSChain against inverse_mass_matrix entry by entry for non-unit scalar, anisotropic array and Vector masses (mass_case). distinct = classes (kind, dimension/steps/quartic | accept, diverging, barrier | depth, turning, bias | tree, leaves | sampler, n, k)",
             "samples": [_js(c) for c in self.cases[:2]],
             "input_distribution": dist, "disagreements": len(bad), "exhaustive": False,
         })
@@ -789,7 +881,7 @@ class C32(C.Check):
             if c.get("kind") in ("chain", "nutsinv", "hmc", "lf", "momentum"):
                 todo.append(c)
         for c in getattr(self, "bad_cases", []):
-            if c.get("kind") == "momentum" and c not in todo:
+            if c.get("kind") in ("momentum", "mass") and c not in todo:
                 todo.insert(0, c)
                 n_hints += 1
         for t_i, t in enumerate(momentum_trees()):
@@ -813,8 +905,9 @@ class C32(C.Check):
             if f:
                 res.add_failing({"fn": "generate_n_samples", "class": f[0]}, f[1], _js(c))
         for c in ctx.corpus():
-            if c.get("kind") == "resume_chain":
+            if c.get("kind") in ("resume_chain", "mass"):
                 todo.append(c)
+        todo += mass_cases(ctx)
         for k_todo, c in enumerate(todo):
             if k_todo >= n_hints and res.failing:
                 break                      # a failing input among the disagreeing cases is enough
@@ -857,7 +950,7 @@ class C32(C.Check):
 
 def _fn_of(c):
     return {"lf": "leapfrog_step", "hmc": "generate_hmc_acc_rej", "chain": "HMCChain.generate_n_samples",
-            "nutsinv": "generate_nuts_tree", "moments": "generate_n_samples", "momentum": "sample_momentum_from_diagonal", "resume_chain": "generate_n_samples"}.get(c["kind"], c["kind"])
+            "nutsinv": "generate_nuts_tree", "moments": "generate_n_samples", "momentum": "sample_momentum_from_diagonal", "resume_chain": "generate_n_samples", "mass": "_Sampler.__init__"}.get(c["kind"], c["kind"])
 
 
 def _js(c):
@@ -885,6 +978,8 @@ def direct_failure(c):
         return _direct_momentum(c)
     if k == "resume_chain":
         return _direct_resume_chain(c)
+    if k == "mass":
+        return _direct_mass(c)
     raise ValueError(k)
 
 
